@@ -96,7 +96,7 @@ func (t *Term) String() string {
 
 // Ctx owns the hash-cons table. One Ctx per path (not shared across goroutines).
 type Ctx struct {
-	table  map[string]*Term
+	table  map[tkey]*Term
 	nextID int
 	Vars   []*Term // declared variables in creation order
 	varIdx map[string]*Term
@@ -104,7 +104,7 @@ type Ctx struct {
 }
 
 func NewCtx() *Ctx {
-	return &Ctx{table: make(map[string]*Term, 1024), varIdx: map[string]*Term{}}
+	return &Ctx{table: make(map[tkey]*Term, 1024), varIdx: map[string]*Term{}}
 }
 
 func mask(w int) uint64 {
@@ -114,17 +114,33 @@ func mask(w int) uint64 {
 	return (uint64(1) << uint(w)) - 1
 }
 
-func (c *Ctx) key(op Op, w int, val uint64, name string, a, b int, args []*Term) string {
-	var sb strings.Builder
-	fmt.Fprintf(&sb, "%d:%d:%x:%s:%d:%d", op, w, val, name, a, b)
-	for _, x := range args {
-		fmt.Fprintf(&sb, ",%d", x.ID)
-	}
-	return sb.String()
+type tkey struct {
+	op         Op
+	w          int
+	val        uint64
+	name       string
+	a, b       int
+	x0, x1, x2 int
 }
 
 func (c *Ctx) mk(op Op, w int, val uint64, name string, a, b int, args ...*Term) *Term {
-	k := c.key(op, w, val, name, a, b, args)
+	k := tkey{op: op, w: w, val: val, name: name, a: a, b: b}
+	switch len(args) {
+	case 0:
+	case 1:
+		k.x0 = args[0].ID
+	case 2:
+		k.x0, k.x1 = args[0].ID, args[1].ID
+	case 3:
+		k.x0, k.x1, k.x2 = args[0].ID, args[1].ID, args[2].ID
+	default:
+		var sb strings.Builder
+		sb.WriteString(name)
+		for _, x := range args {
+			fmt.Fprintf(&sb, ",%d", x.ID)
+		}
+		k.name = sb.String()
+	}
 	if t, ok := c.table[k]; ok {
 		return t
 	}
@@ -730,6 +746,16 @@ func (c *Ctx) FCmp(op Op, x, y *Term) *Term {
 			return c.Bool(a == b)
 		}
 	}
+	if !UseFPTheory {
+		switch op {
+		case OpFLt:
+			return c.bvFLt(x, y)
+		case OpFLe:
+			return c.bvFLe(x, y)
+		case OpFEq:
+			return c.bvFEq(x, y)
+		}
+	}
 	return c.mk(op, 0, 0, "", 0, 0, x, y)
 }
 
@@ -744,6 +770,12 @@ func (c *Ctx) FToF(x *Term, w int) *Term {
 			return c.Const(32, uint64(math.Float32bits(float32(math.Float64frombits(x.Val)))))
 		}
 		return c.Const(64, math.Float64bits(float64(math.Float32frombits(uint32(x.Val)))))
+	}
+	if !UseFPTheory {
+		if w == 32 {
+			return c.bvF64to32(x)
+		}
+		return c.bvF32to64(x)
 	}
 	return c.mk(OpFToF, w, 0, "", 0, 0, x)
 }
@@ -769,13 +801,16 @@ func (c *Ctx) FToInt(x *Term, w int, signed bool) *Term {
 	if x.Op == OpConst {
 		return c.Const(w, FToIntConcrete(ffrom(x.W, x.Val), w, signed))
 	}
+	if !UseFPTheory {
+		return c.bvFToInt(x, w, signed)
+	}
 	return c.mk(op, w, 0, "", 0, 0, x)
 }
 
 // FToIntConcrete mirrors Go/amd64 (gc, SSE2) float->int conversion for all inputs:
 //   int8/16/32, uint8/16: CVTTSD2SL (32-bit indefinite 0x80000000), then truncate
 //   uint32, int64/int:    CVTTSD2SQ (64-bit indefinite 0x8000000000000000), then truncate
-//   uint64/uint/uintptr:  x < 2^63 ? cvtq(x) : cvtq(x-2^63) ^ 2^63
+//   uint64/uint/uintptr:  x < 2^63 ? cvtq(x) : cvtq(x-2^63) | 2^63
 // (validated against the native compiler by the engine self-test).
 func FToIntConcrete(f float64, w int, signed bool) uint64 {
 	cvtq := func(f float64) uint64 {
@@ -799,7 +834,7 @@ func FToIntConcrete(f float64, w int, signed bool) uint64 {
 		if f < 9223372036854775808.0 {
 			return cvtq(f)
 		}
-		return cvtq(f-9223372036854775808.0) ^ 0x8000000000000000
+		return cvtq(f-9223372036854775808.0) | 0x8000000000000000
 	}
 }
 
@@ -822,6 +857,9 @@ func (c *Ctx) IntToF(x *Term, w int, signed bool) *Term {
 			f = float64(x.Val)
 		}
 		return c.Const(64, math.Float64bits(f))
+	}
+	if !UseFPTheory {
+		return c.bvIntToF(x, w, signed)
 	}
 	return c.mk(op, w, 0, "", 0, 0, x)
 }
